@@ -6,6 +6,9 @@ The reference models are written from the property statements; they never call
 tradingenv arithmetic.  Inputs are the scenario's floats, lifted to Fractions.
 """
 import math
+import os
+import sys
+import json
 from fractions import Fraction as F
 from datetime import datetime, timedelta
 
@@ -893,6 +896,43 @@ class AcctSim(object):
                         self.violate("second_rebalance_trades", "second identical rebalance traded {} of {} (notional {})".format(
                             tr.quantity, self.specs[i]["name"], tr.notional), kind="again")
 
+    # -- checkpoint / resume in another process -------------------------------
+    def checkpoint_and_resume(self, k):
+        """Fault: the account is checkpointed (pickle) here and resumed in another interpreter - another hash seed,
+        freshly built contract objects - which plays the rest of the script under the same oracles. (In the resuming
+        process this method swaps the unpickled exchange and broker in.)"""
+        import pickle
+        blob = getattr(self, "resume_blob", None)
+        if blob is not None:
+            self.ex, self.broker = pickle.loads(blob)
+            self.probe("resumed_from_a_checkpoint")
+            return
+        if os.environ.get("TESIM_IN_RESUME"):
+            return
+        import base64
+        import subprocess
+        import tempfile
+        payload = {"scenario": self.sc, "prop": self.prop, "blob": base64.b64encode(pickle.dumps((self.ex, self.broker))).decode()}
+        with tempfile.NamedTemporaryFile("w", suffix=".json", delete=False) as f:
+            json.dump(payload, f)
+            path = f.name
+        try:
+            env = dict(os.environ, PYTHONHASHSEED="4242", TESIM_IN_RESUME="1", TESIM_NO_REEXEC="1")
+            main_py = os.path.join(os.path.dirname(os.path.dirname(os.path.abspath(__file__))), "tesim_main.py")
+            res = subprocess.run([sys.executable, main_py, "resume-acct", path], env=env, capture_output=True, text=True, timeout=120)
+        finally:
+            os.unlink(path)
+        line = [x for x in res.stdout.splitlines() if x.startswith("RESUMED ")]
+        if not line:
+            raise core.HarnessError("resume process failed: " + (res.stderr or res.stdout)[-400:])
+        out = json.loads(line[-1][len("RESUMED "):])
+        self.fault("checkpoint_resumed_in_another_process")
+        self.probe("account_resumed_in_another_process")
+        if out["violations"]:
+            v = out["violations"][0]
+            self.violate("resumed_account_diverges", "after being pickled at op {} and resumed in another interpreter the account violates {}: {}".format(
+                k, v["clause"], v["msg"]), clause_after=v["clause"])
+
     # -- driver -----------------------------------------------------------
     def run(self):
         handlers = {
@@ -902,6 +942,10 @@ class AcctSim(object):
         }
         for k, op in enumerate(self.sc["script"]):
             self.k = k
+            if self.sc.get("resume_at") == k and not self.violations:
+                self.checkpoint_and_resume(k)
+                if self.violations:
+                    break
             name = op["op"]
             pre_model = None
             L = self.L
